@@ -71,7 +71,7 @@ package hotline
 // positions the output (cursor_flow), advances by what was copied and never moves on an error.
 
 //@ func (a *Account) Read(p []byte) (n int, err error)
-//@   property C01
+//@   property C01 C15
 //@   cursor_flow readOffset
 //@   requires a != nil && a.readOffset >= 0 && len(a.Name) <= 65535 && len(a.Login) <= 65535
 //@   loop 1 modifies nothing
@@ -870,6 +870,10 @@ package hotline
 //@   property C10
 //@   ensures fh.Type[0] == 0 && fh.Type[1] == ite(isDir, 1, 0) && fh.readOffset == 0
 //@   ensures u16(bytes(fh.Size)) == (len(fh.FilePath) + 2) % 65536
+// the path that is encoded is the relative path the caller gave, unedited (names may begin or end
+// with dots), and the header carries that encoding
+//@   before call hotline.EncodeFilePath assert arg0 == old(fileName)
+//@   ensures same(fh.FilePath, callres("hotline.EncodeFilePath"))
 //@   modifies nothing
 
 // Decoding the client's resume data touches the decoded value only.
@@ -1086,10 +1090,14 @@ package hotline
 // the client list with a different ID gets one copy (every iteration with c.ID != cc.ID appends),
 // and nobody else does.
 //@ func (cc *ClientConn) NotifyOthers(t Transaction) (trans []Transaction)
-//@   property C13
+//@   property C13 C17
 //@   requires cc != nil
 //@   before call builtin.append assert c.ID != cc.ID
 //@   loop 1 reaches builtin.append when c.ID != cc.ID
+// ... whatever the size of the list (a departing client has already been removed from it when its
+// "user left" notice is built: a single remaining user is still told)
+//@   loop 1 always
+//@   loop 1 complete
 
 // ---------------------------------------------------------------------------------
 // C13 / C14 / C17: leaving, broadcasting, dispatching.
@@ -1237,6 +1245,15 @@ package hotline
 //@   requires len(list) <= 255
 //@   ensures r != nil && fresh(r) && bytes(r.Format) == "RFLT" && bytes(r.Version) == seq(0,1) && bytes(r.RSVD) == zeros(34)
 //@   ensures r.ForkCount[0] == 0 && r.ForkCount[1] == len(list) && same(r.ForkInfoList, list)
+//@   modifies nothing
+
+// C07: the root a client's file requests are resolved against is the account's own root whenever
+// one is configured -- whatever the state of the file system -- and the shared root only otherwise.
+//@ func (cc *ClientConn) FileRoot() (r string)
+//@   property C07
+//@   requires cc != nil && cc.Account != nil && cc.Server != nil
+//@   ensures len(cc.Account.FileRoot) != 0 ==> r == cc.Account.FileRoot
+//@   ensures len(cc.Account.FileRoot) == 0 ==> r == cc.Server.Config.FileRoot
 //@   modifies nothing
 
 // C18: a decoded news path has exactly as many components as its count field says -- one per
